@@ -56,6 +56,12 @@ CHECKS = {
  'C11': dict(technique='specification table compared with every created state (static, complete per run) + dynamic monitors on playouts (offered raise intervals per structure, cap, hole card facings, low halves)',
              text='The static comparison covers all 12 classes and 11 variant codes completely on every run; the dynamic monitors held on the generated hands of every variant.',
              note='Trusted base: the SPEC table in vflib/monitors/c11.py states what the game names mean.', ref='DESIGN.md §2 C11'),
+ 'C16': dict(technique='round-trip runtime check (write, read, write again, replay) with a counting wrapper around parse_action to detect silent truncation on corrupted histories',
+             text='Held on the generated histories of all 11 variants (int and Decimal chips, terminal and partial, commentary, optional and user fields): field and text equality, replay equality of player-visible operations and stacks, unknown-hole-card replays, and raise-or-apply-everything on corruptions.',
+             note='Single run-out, one board, no rake; strings TOML literals cannot carry are excluded.', ref='DESIGN.md §2 C16'),
+ 'C17': dict(technique='independent renderer of both protocols from the operation log compared with the library output for every viewer seat + loop closure through the protocol parser',
+             text='Held on the generated fixed-limit and no-limit hands: Pluribus line, every S->/<-C message of every seat, and parse-back (same betting, board, stacks, and the same line again).',
+             note='Blinds only, equal stacks, known cards (the protocols\' domain).', ref='DESIGN.md §2 C17'),
 }
 PENDING_REASON = 'check not built yet in this revision (runtime monitor planned, see DESIGN.md §2); not claimed until it exists'
 
